@@ -9,6 +9,7 @@
    sent and none of another kind, stepping has ended. *)
 From Coq Require Import List String Bool ZArith.
 From Plumpy Require Import Val Mon PortModel Model Run LifeSx LifeFx LifePath LifeBook LifeOutcome LifeAgree LifeWake.
+From Plumpy Require LifeEsc LifeReturn.
 Import ListNotations.
 
 (* AT EVERY POINT OF EVERY RUN — any program, any listener scripts (with re-entrant control calls: kill from a listener,
@@ -79,6 +80,22 @@ Theorem C02_stepping_task_returns :
     \/ (exists rest r k, t0 w = PcInStep rest r (Some k) /\ find (fun kw => Nat.eqb (fst kw) k) (exts w) = None).
 Proof. exact stepping_returns. Qed.
 Print Assumptions C02_stepping_task_returns.
+
+(* ... and the task does not fail (Life/LifeEsc.v: in every run, with or without an injected fault, no exception escapes
+   step_until_terminated(), provided the process future is not cancelled from outside — the recorded finding D3b of C04) *)
+Theorem C02_stepping_task_never_fails :
+  forall c es w e, run c es = Some w -> ~ In ECancelFuture es -> t0 w = PcFailed e -> e = EOutOfFuel.
+Proof. exact LifeEsc.task_never_fails. Qed.
+Print Assumptions C02_stepping_task_never_fails.
+
+(* hence: terminated and nothing left to run => step_until_terminated() has returned (or the model's fuel ran out, or the
+   step is blocked in the program's own await of a future nobody completed) *)
+Theorem C02_stepping_task_returns_for_sure :
+  forall c es w, cf_fault c = None -> run c es = Some w -> ~ In ECancelFuture es -> is_terminated w = true -> ready w = [] ->
+    t0 w = PcDone \/ t0 w = PcFailed EOutOfFuel
+    \/ (exists rest r k, t0 w = PcInStep rest r (Some k) /\ find (fun kw => Nat.eqb (fst kw) k) (exts w) = None).
+Proof. exact LifeReturn.stepping_returns_for_sure. Qed.
+Print Assumptions C02_stepping_task_returns_for_sure.
 
 (* the hypotheses are met by a run that ends in each of the three terminal states and by a live one *)
 Example C02_reports_agree_nonvacuous :
